@@ -210,21 +210,22 @@ func (fr *Frame) applyContract(site ssa.Instruction, fc *FuncContract, key strin
 		props := r.Props
 		ex.oblige(fmt.Sprintf("pre:%s.%s@%d", name, clauseName(r, i), fr.callOrd[site]), "pre", props, reach, cond, ex.pos(instrPos(site)), shortKey(key)+" requires "+r.Text)
 	}
-	if fc.Pure {
-		return fr.pureResults(key, sig, args, reach, st)
-	}
-	// havoc the frame
-	for _, m := range fc.Modifies {
-		env2 := &Env{ex: ex, fr: fr, cur: pre, old: pre, vars: bind, pkgPath: fc.PkgPath, callerPkg: ex.pkg}
-		env2.havocItem(m, st, reach)
-	}
-	// results
 	var res []T
-	for i := 0; i < sig.Results().Len(); i++ {
-		rt := sig.Results().At(i).Type()
-		r := ex.freshOfType(fmt.Sprintf("f%d_%s_%d_r%d", fr.id, sanitize(name), fr.callOrd[site], i), rt, tTrue, nil)
-		fr.markAllocated(r, rt, reach, st)
-		res = append(res, r)
+	if fc.Pure {
+		res = fr.pureResults(key, sig, args, reach, st)
+	} else {
+		// havoc the frame
+		for _, m := range fc.Modifies {
+			env2 := &Env{ex: ex, fr: fr, cur: pre, old: pre, vars: bind, pkgPath: fc.PkgPath, callerPkg: ex.pkg}
+			env2.havocItem(m, st, reach)
+		}
+		// results
+		for i := 0; i < sig.Results().Len(); i++ {
+			rt := sig.Results().At(i).Type()
+			r := ex.freshOfType(fmt.Sprintf("f%d_%s_%d_r%d", fr.id, sanitize(name), fr.callOrd[site], i), rt, tTrue, nil)
+			fr.markAllocated(r, rt, reach, st)
+			res = append(res, r)
+		}
 	}
 	post := &Env{ex: ex, fr: fr, cur: st, old: pre, vars: map[string]Val{}, pkgPath: fc.PkgPath, callerPkg: ex.pkg}
 	for k, v := range bind {
@@ -243,7 +244,12 @@ func (fr *Frame) applyContract(site ssa.Instruction, fc *FuncContract, key strin
 		}
 	}
 	for _, e := range fc.Ensures {
-		ex.assume(reach, post.evalBool(e))
+		if fc.Pure {
+			// a pure function is total and deterministic: its postcondition holds of the application term everywhere
+			ex.assume(tTrue, post.evalBool(e))
+		} else {
+			ex.assume(reach, post.evalBool(e))
+		}
 	}
 	return res
 }
